@@ -94,7 +94,12 @@ Templates(p) ==
   ELSE ("t" :> p.defs \o <<Text("^S")>> \o p.stmts \o <<Text("E$")>>)
 Expected(p) == S2B("^S") \o p.out[<<>>] \o S2B("E$")
 
-Cases == SetToSeq(Pieces)
+(* a leaf that fails after writing: the execution stops there, and whatever an open capture holds at that point is not output *)
+FailLeaf == [stmts |-> <<Text("f"), PrintS(NameE("v")), PrintS(CallE("nosuchfunction", <<>>)), Text("g")>>, defs |-> <<>>, out |-> [vv \in VV |-> <<>>], inh |-> FALSE]
+FailKs == SetToSeq({q \in KindSeqs : Len(q) <= 3})
+OkCases == SetToSeq(Pieces)
+Cases == OkCases \o [i \in 1..Len(FailKs) |-> Build(FailKs[i], 1, FailLeaf)]
+IsFail == v_idx > Len(OkCases)
 Picked == 1..Len(Cases)
 Init == GenInit(v_lvl, v_idx)
 Next == GenNext(v_lvl, v_idx, Picked, 32)
@@ -105,14 +110,19 @@ Out == v_lvl < 2 \/ Emit(RenderVec("C08-" \o ToString(v_idx), IF Cur.inh THEN "c
 
 --------------------------------------------------------------------------
 (* the destination writer receives exactly the structurally defined output, in order *)
-CaptureExact == v_lvl = 2 => LET R == Ref IN (R.status = "ok" /\ MainOut(R) = Expected(Cur))
+CaptureExact == (v_lvl = 2 /\ ~IsFail) => LET R == Ref IN (R.status = "ok" /\ MainOut(R) = Expected(Cur))
+(* a failure inside a capture: the execution reports it, and the text the capture held ("f") is not in the output *)
+FailureLeavesCaptureOut == (v_lvl = 2 /\ IsFail) =>
+  LET R == Ref  ks == FailKs[v_idx - Len(OkCases)] IN
+  /\ R.status = "err"
+  /\ (\E q \in 1..Len(ks) : ks[q] # "loop") => (\A j \in 1..Len(MainOut(R)) : MainOut(R)[j] \notin {102, 70})
 (* every capture is closed by the matching restore; at the end only the destination writer is left *)
 RECURSIVE Depths(_, _, _)
 Depths(log, q, d) == IF q > Len(log) THEN d = 1
                      ELSE IF log[q].e = "cap+" THEN log[q].depth = d /\ Depths(log, q + 1, d + 1)
                      ELSE IF log[q].e = "cap-" THEN d > 1 /\ log[q].depth = d - 1 /\ Depths(log, q + 1, d - 1)
                      ELSE Depths(log, q + 1, d)
-Balanced == v_lvl = 2 => Depths(Ref.log, 1, 1)
+Balanced == (v_lvl = 2 /\ ~IsFail) => Depths(Ref.log, 1, 1)      \* an execution that fails stops inside its captures
 (* a write reaches the destination writer only while no capture is open *)
 RECURSIVE MainOnly(_, _, _)
 MainOnly(log, q, d) == IF q > Len(log) THEN TRUE
